@@ -8,42 +8,15 @@
 // does not finish accepted work / cleanup() does not return within the watchdog, a Fault event ends the trace.
 // Schedule control: (a) seeded random delays at the points between critical sections, (b) gates: "hold <role> at <point>
 // until <role> has passed <point> n times" (with a timeout, so a schedule that the code cannot follow is simply abandoned).
-#include <vh.h>
-#include <algorithm>
-#include <chrono>
-#include <condition_variable>
+#include <vsched.h>
 #include <fstream>
-#include <functional>
-#include <map>
-#include <thread>
-#include <nlohmann/json.hpp>
 #include <tbox/base/verif_hook.h>
 #include <tbox/event/loop.h>
 #include <tbox/eventx/thread_pool.h>
 #include <tbox/eventx/work_thread.h>
 
-using json = nlohmann::json;
+using namespace vs;
 using namespace tbox;
-using Clock = std::chrono::steady_clock;
-
-// ------------------------------------------------------------------ event buffer --------------------------------
-struct Ev { uint64_t seq; std::string line; };
-static std::mutex g_evm;
-static std::vector<Ev> g_events;
-static std::atomic<uint64_t> g_seq{1};
-static void emit_at(uint64_t seq, const std::string &body) {
-    std::lock_guard<std::mutex> g(g_evm);
-    g_events.push_back({seq, body});
-}
-static uint64_t emit(const std::string &body) { uint64_t s = g_seq.fetch_add(1); emit_at(s, body); return s; }
-static void flush_events(bool reset) {
-    std::lock_guard<std::mutex> g(g_evm);
-    std::sort(g_events.begin(), g_events.end(), [](const Ev &a, const Ev &b) { return a.seq < b.seq; });
-    for (auto &e : g_events) vh::T().line(e.line);
-    g_events.clear();
-    if (reset) vh::T().line("{\"e\":\"Reset\"}");
-    vh::T().flush();
-}
 
 // ------------------------------------------------------------------ roles, ids ----------------------------------
 static std::thread::id g_main_tid;
@@ -57,64 +30,25 @@ static int g_next_worker = 0;
 static bool is_main() { return std::this_thread::get_id() == g_main_tid; }
 static int task_of(long tok) { std::lock_guard<std::mutex> g(g_mapm); auto i = g_task_of_token.find(tok); return i == g_task_of_token.end() ? -1 : i->second; }
 static int worker_num(long tok) {
-    if (tl_worker) return tl_worker;
-    std::lock_guard<std::mutex> g(g_mapm);
-    auto i = g_worker_of_token.find(tok);
-    tl_worker = (i == g_worker_of_token.end()) ? -1 : i->second;
-    return tl_worker;
+    if (tl_worker > 0) return tl_worker;
+    // the worker's first point ("tp.w.loop") can be reached before createWorker() has published the thread token: wait for it
+    for (int i = 0; i < 4000; ++i) {
+        {   std::lock_guard<std::mutex> g(g_mapm);
+            auto it = g_worker_of_token.find(tok);
+            if (it != g_worker_of_token.end()) return tl_worker = it->second; }
+        std::this_thread::sleep_for(std::chrono::microseconds(500));
+    }
+    return -1;
 }
 
-// ------------------------------------------------------------------ schedule control ---------------------------
-struct Gate { std::string hold_role, hold_pt, until_role, until_pt, after_key; int until_n, after_n; long hold_b; bool rel; };   // hold_b: -1 = any
-static std::vector<Gate> g_gates;
-static std::mutex g_gm;
-static std::condition_variable g_gcv;
-static std::map<std::string, int> g_passed;     // "role:point" -> count
-static int g_delay_pct = 0;                     // probability of a random delay at a G point
-static uint64_t g_delay_seed = 1;
-static thread_local vh::Rng *tl_rng = nullptr;
-static int g_gate_timeout_ms = 1500;
-static std::atomic<int> g_gate_timeouts{0};
-
-static bool is_gpoint(const char *n) {
-    static const char *gp[] = {"tp.exec.unlocked", "tp.cleanup.unlocked", "tp.cleanup.flag", "tp.cleanup.notified", "tp.w.unlocked",
-                               "tp.w.body_begin", "tp.w.body_end", "tp.w.leaving", "tp.init.unlocked",
-                               "wt.exec.unlocked", "wt.w.unlocked", "wt.cleanup.unlocked", "wt.cleanup.flag", "wt.w.pred_false",
-                               "wt.w.body_begin", "wt.w.body_end"};
-    for (auto p : gp) if (!strcmp(p, n)) return true;
-    return false;
-}
-static void schedule_point(const char *name, const char *role, long b) {
-    // 1. gates
-    for (auto &g : g_gates) {
-        if (g.hold_pt != name || g.hold_role != role || (g.hold_b >= 0 && g.hold_b != b)) continue;
-        std::unique_lock<std::mutex> lk(g_gm);
-        if (!g.after_key.empty() && g_passed[g.after_key] < g.after_n) continue;      // gate not armed yet
-        std::string key = g.until_role + ":" + g.until_pt;
-        int target = g.rel ? g_passed[key] + g.until_n : g.until_n;
-        bool ok = g_gcv.wait_for(lk, std::chrono::milliseconds(g_gate_timeout_ms), [&] { return g_passed[key] >= target; });
-        if (!ok) g_gate_timeouts++;
-    }
-    // 2. random perturbation between critical sections
-    if (g_delay_pct > 0 && is_gpoint(name)) {
-        if (!tl_rng) tl_rng = new vh::Rng(g_delay_seed * 1000003ull + std::hash<std::thread::id>()(std::this_thread::get_id()));
-        if ((int)tl_rng->below(100) < g_delay_pct) {
-            int us = (int)tl_rng->below(4) == 0 ? (int)tl_rng->range(200, 1500) : (int)tl_rng->range(1, 120);
-            std::this_thread::sleep_for(std::chrono::microseconds(us));
-        } else if (tl_rng->below(4) == 0) std::this_thread::yield();
-    }
-}
-static void passed_point(const char *name, const char *role) {
-    if (g_gates.empty()) return;
-    std::lock_guard<std::mutex> lk(g_gm);
-    g_passed[std::string(role) + ":" + name]++;
-    g_gcv.notify_all();
+// ------------------------------------------------------------------ schedule control (harness/common/vsched.h) --
+static void set_gpoints() {
+    S().gpoints = {"tp.exec.unlocked", "tp.cleanup.unlocked", "tp.cleanup.flag", "tp.cleanup.notified", "tp.w.unlocked", "tp.w.body_begin",
+                   "tp.w.body_end", "tp.w.leaving", "tp.init.unlocked", "wt.exec.unlocked", "wt.w.unlocked", "wt.cleanup.unlocked",
+                   "wt.cleanup.notified", "wt.w.body_begin", "wt.w.body_end"};
 }
 
 // ------------------------------------------------------------------ the hook -----------------------------------------
-static std::string J(const char *e) { return std::string("{\"e\":\"") + e + "\""; }
-static std::string kv(const char *k, long v) { return std::string(",\"") + k + "\":" + std::to_string(v); }
-static std::string kb(const char *k, bool v) { return std::string(",\"") + k + "\":" + (v ? "true" : "false"); }
 
 static void hook(const char *name, long a, long b) {
     if (strncmp(name, "tp.", 3) && strncmp(name, "wt.", 3)) return;
@@ -128,8 +62,9 @@ static void hook(const char *name, long a, long b) {
     if (wpt && !pool) w = tl_worker = 1;             // the single work thread
     else if (wpt && strcmp(n, "w.pred") && strcmp(n, "w.pred_false")) w = worker_num(a);
     else if (wpt) w = tl_worker;
-    schedule_point(name, role, b);
-    uint64_t seq = g_seq.fetch_add(1);
+    const std::string sr = wpt ? std::to_string(w) : std::string("M");      // role in a replayed TLC behaviour
+    S().arrive(name, role, b, sr.c_str());
+    uint64_t seq = next_seq();
     std::string e;
     if (!strcmp(n, "init")) e = J("init") + kv("min", a) + kv("max", b);
     else if (!strcmp(n, "spawn")) {
@@ -140,9 +75,9 @@ static void hook(const char *name, long a, long b) {
         { std::lock_guard<std::mutex> g(g_mapm); g_task_of_token[a] = tl_cur_task; }
         e = J("exec") + kv("t", tl_cur_task) + kv("lvl", b);          // "cb" is appended by the caller (see do_exec)
         emit_at(seq, e + "}");                                          // the cb flag travels in the preceding "submit" event
-        passed_point(name, role);
+        S().pass(name, role, sr.c_str());
         return;
-    } else if (!strcmp(n, "status") || !strcmp(n, "cancel")) { tl_query_seq = seq; passed_point(name, role); return; }
+    } else if (!strcmp(n, "status") || !strcmp(n, "cancel")) { tl_query_seq = seq; S().pass(name, role, sr.c_str()); return; }
     else if (!strcmp(n, "cleanup.collect")) e = J("collect") + kv("n", a) + kb("flag", b != 0);
     else if (!strcmp(n, "cleanup.flag")) e = J("flag");
     else if (!strcmp(n, "cleanup.joined")) e = J("joined");
@@ -158,7 +93,7 @@ static void hook(const char *name, long a, long b) {
     else if (!strcmp(n, "w.leaving")) e = J("leaving") + kv("w", w) + kb("joinme", b != 0);
     else if (!strcmp(n, "w.exit_free")) e = J("exit_free") + kv("w", w) + kb("found", b != 0);
     if (!e.empty()) emit_at(seq, e + "}");
-    passed_point(name, role);
+    S().pass(name, role, sr.c_str());
 }
 
 // ------------------------------------------------------------------ the system under test ---------------------------
@@ -168,26 +103,8 @@ static eventx::ThreadPool *g_pool = nullptr;
 static eventx::WorkThread *g_work = nullptr;        // "work" executions use the single work thread instead of the pool
 static std::vector<TaskRec *> g_tasks;       // index = task number (1-based)
 static bool g_ready = false;
-static std::atomic<bool> g_in_call{false};
-static std::atomic<long long> g_call_start_ms{0};
 
-static long long now_ms() { return std::chrono::duration_cast<std::chrono::milliseconds>(Clock::now().time_since_epoch()).count(); }
 static void spin_loop() { g_loop->runNext([] {}, "spin"); g_loop->runLoop(event::Loop::Mode::kOnce); }
-
-static void flush_on_fault(bool) {
-    // best effort, no locking
-    std::sort(g_events.begin(), g_events.end(), [](const Ev &a, const Ev &b) { return a.seq < b.seq; });
-    for (auto &e : g_events) { fputs(e.line.c_str(), vh::T().f); fputc('\n', vh::T().f); }
-    g_events.clear();
-}
-static void hang(const char *what) { vh::fault("hang", what); }
-static void watchdog() {          // a call into the pool that does not return is a hang (C05: cleanup always terminates)
-    for (;;) {
-        std::this_thread::sleep_for(std::chrono::milliseconds(200));
-        if (g_in_call.load() && now_ms() - g_call_start_ms.load() > 20000) hang("call into the pool did not return within 20 s");
-    }
-}
-struct CallGuard { CallGuard() { g_call_start_ms = now_ms(); g_in_call = true; } ~CallGuard() { g_in_call = false; } };
 
 static void do_exec(int k, int prio, int dur_us, bool cb) {
     while ((int)g_tasks.size() <= k) g_tasks.push_back(new TaskRec);
@@ -214,7 +131,7 @@ static void do_status(int k) {
     tl_query_seq = 0;
     int si = g_work ? (int)g_work->getTaskStatus(g_tasks[k]->tok) : (int)g_pool->getTaskStatus(g_tasks[k]->tok);
     const char *a = si == (int)eventx::ThreadPool::TaskStatus::kWaiting ? "waiting" : si == (int)eventx::ThreadPool::TaskStatus::kExecuting ? "executing" : "notfound";
-    emit_at(tl_query_seq ? tl_query_seq : g_seq.fetch_add(1), J("status") + kv("t", k) + ",\"ans\":\"" + a + "\"}");
+    emit_at(tl_query_seq ? tl_query_seq : next_seq(), J("status") + kv("t", k) + ",\"ans\":\"" + a + "\"}");
 }
 static void do_cancel(int k) {
     if (k >= (int)g_tasks.size() || !g_tasks[k]->accepted) return;
@@ -222,7 +139,7 @@ static void do_cancel(int k) {
     tl_query_seq = 0;
     int a = g_work ? g_work->cancel(g_tasks[k]->tok) : g_pool->cancel(g_tasks[k]->tok);
     if (a == 0) g_tasks[k]->cancelled = true;
-    emit_at(tl_query_seq ? tl_query_seq : g_seq.fetch_add(1), J("cancel") + kv("t", k) + kv("ans", a) + "}");
+    emit_at(tl_query_seq ? tl_query_seq : next_seq(), J("cancel") + kv("t", k) + kv("ans", a) + "}");
 }
 static void do_init(int mn, int mx) {
     CallGuard cg;
@@ -236,10 +153,6 @@ static void do_cleanup() {
     if (g_work) g_work->cleanup(); else g_pool->cleanup();
     emit(J("cleanup_ret") + "}");
     g_ready = false;
-}
-static void await_point(const std::string &key, int n) {
-    std::unique_lock<std::mutex> lk(g_gm);
-    if (!g_gcv.wait_for(lk, std::chrono::milliseconds(g_gate_timeout_ms), [&] { return g_passed[key] >= n; })) g_gate_timeouts++;
 }
 static void wait_quiescent() {
     // every task accepted since the last initialize and not cancelled must run (C05: accepted tasks are executed)
@@ -259,16 +172,8 @@ static void wait_quiescent() {
 }
 
 static void run_execution(const json &x) {
-    g_gates.clear(); g_passed.clear(); g_gate_timeouts = 0;
-    if (x.contains("gates")) for (auto &g : x["gates"]) {
-        Gate G; G.hold_role = g["hold"][0]; G.hold_pt = g["hold"][1]; G.hold_b = g["hold"].size() > 2 ? g["hold"][2].get<long>() : -1;
-        G.until_role = g["until"][0]; G.until_pt = g["until"][1]; G.until_n = g["until"].size() > 2 ? g["until"][2].get<int>() : 1;
-        G.rel = g.value("rel", false); G.after_n = 1;
-        if (g.contains("after")) { G.after_key = g["after"][0].get<std::string>() + ":" + g["after"][1].get<std::string>(); G.after_n = g["after"].size() > 2 ? g["after"][2].get<int>() : 1; }
-        g_gates.push_back(G);
-    }
-    g_delay_pct = x.value("delay_pct", 0);
-    g_delay_seed = x.value("seed", 1);
+    S().reset(x); set_gpoints();
+    if (x.contains("schedule")) S().seq_load(x["schedule"]);
     for (auto t : g_tasks) delete t;
     g_tasks.clear(); g_tasks.push_back(new TaskRec);
     { std::lock_guard<std::mutex> g(g_mapm); g_task_of_token.clear(); g_worker_of_token.clear(); g_next_worker = 0; }
@@ -283,13 +188,14 @@ static void run_execution(const json &x) {
     bool dropped_since_init = false;
     for (auto &op : x["ops"]) {
         std::string o = op["o"];
+        if (op.value("call", false)) { if (S().seq_wait("M", "call")) S().seq_done("M", "call"); }     // its turn in the replayed behaviour
         if (o == "init") { do_init(op["min"], op["max"]); }
         else if (o == "exec") do_exec(op["t"], op.value("prio", 0), op.value("us", 0), op.value("cb", false));
         else if (o == "status") do_status(op["t"]);
         else if (o == "cancel") do_cancel(op["t"]);
         else if (o == "spin") { for (int i = 0; i < op.value("n", 1); ++i) spin_loop(); }
         else if (o == "sleep") std::this_thread::sleep_for(std::chrono::microseconds(op.value("us", 100)));
-        else if (o == "await") await_point(op["key"], op.value("n", 1));
+        else if (o == "await") S().await(op["key"], op.value("n", 1));
         else if (o == "cleanup") {
             // tasks still waiting are dropped by cleanup: mark them so that the final wait does not expect them
             do_cleanup(); dropped_since_init = true;
@@ -301,7 +207,7 @@ static void run_execution(const json &x) {
     for (int i = 0; i < 3; ++i) spin_loop();          // drain posted completion callbacks / join closures
     {   CallGuard cg; delete g_pool; g_pool = nullptr; delete g_work; g_work = nullptr; }
     for (int i = 0; i < 2; ++i) spin_loop();
-    emit(J("end") + kv("gate_timeouts", g_gate_timeouts.load()) + "}");
+    emit(J("end") + kv("gate_timeouts", S().gate_timeouts.load()) + kv("seq_diverged", S().seq_diverged.load()) + kv("seq_div_at", S().seq_div_at) + ks("seq_div_who", S().seq_div_who + (S().seq_div_at >= 0 && (size_t)S().seq_div_at < S().seq.size() ? " expected " + S().seq[S().seq_div_at].first + ":" + S().seq[S().seq_div_at].second : std::string())) + "}");
     flush_events(true);
 }
 
@@ -339,12 +245,11 @@ static json random_execution(vh::Rng &rng, uint64_t seed) {
 
 int main(int argc, char **argv) {
     if (argc < 4) return 3;
-    vh::install_faults();
-    vh::pre_fault() = flush_on_fault;
+    vs::init();
     g_main_tid = std::this_thread::get_id();
     tbox::verif::Hooks().point = hook;
     g_loop = event::Loop::New();
-    std::thread(watchdog).detach();
+    start_watchdog();
     std::string mode = argv[1];
     if (mode == "random") {
         uint64_t seed = strtoull(argv[2], nullptr, 10); int nexec = atoi(argv[3]);
